@@ -431,38 +431,96 @@ Proof.
   apply prefix_balanced. intros w1 w2 E. specialize (Hp w1 w2 E). lia.
 Qed.
 
-Lemma gain_nonneg : forall t g, gain t = Some g -> (0 <= g)%Z.
+Lemma execc_exec : forall t w, execc t w -> exec t w false.
 Proof.
-  induction t as [|s|a IHa b IHb|a IHa|a IHa]; intros g H; cbn [gain] in H.
-  - injection H as <-. lia.
-  - destruct s; injection H as <-; lia.
-  - destruct (gain a) as [ga|]; [|discriminate]. destruct (gain b) as [gb|]; [|discriminate].
-    injection H as <-. specialize (IHa _ eq_refl). specialize (IHb _ eq_refl). lia.
-  - auto.
-  - destruct (gain a) as [ga|]; [|discriminate]. destruct (0 <? ga)%Z; [discriminate|].
-    injection H as <-. lia.
+  induction 1; try (econstructor; eassumption).
 Qed.
 
-Theorem gain_sound : forall t w f, exec t w f -> forall g, gain t = Some g -> (net w <= g)%Z.
+Theorem gain_sound : forall t w, execc t w -> forall g, gain t = Some g -> (net w <= g)%Z.
 Proof.
-  induction 1 as [t| |s id|a b w H IH|a b w1 w2 f H1 IH1 H2 IH2|a|a w f H IH|a|a w1 f1 w2 f2 H1 IH1 H2 IH2|a w H IH];
-    intros g G.
-  - cbn [net]. eapply gain_nonneg; eauto.
+  induction 1 as [|s id|a b w1 w2 H1 IH1 H2 IH2|a|a w H IH|a|a w1 w2 H1 IH1 H2 IH2]; intros g G.
   - cbn in *. injection G as <-. lia.
   - cbn [net gain] in *. rewrite weight_item_of_sym. destruct s; injection G as <-; lia.
   - cbn [gain] in G. destruct (gain a) as [ga|] eqn:Ga; [|discriminate].
     destruct (gain b) as [gb|] eqn:Gb; [|discriminate]. injection G as <-.
-    specialize (IH _ eq_refl). pose proof (gain_nonneg _ _ Gb). lia.
-  - cbn [gain] in G. destruct (gain a) as [ga|] eqn:Ga; [|discriminate].
-    destruct (gain b) as [gb|] eqn:Gb; [|discriminate]. injection G as <-.
     specialize (IH1 _ eq_refl). specialize (IH2 _ eq_refl). rewrite net_app. lia.
-  - cbn [net]. eapply gain_nonneg; eauto.
-  - cbn [gain] in G. auto.
-  - cbn [net]. eapply gain_nonneg; eauto.
+  - cbn [gain] in G. destruct (gain a) as [ga|]; [|discriminate]. injection G as <-. cbn [net]. lia.
+  - cbn [gain] in G. destruct (gain a) as [ga|] eqn:Ga; [|discriminate]. injection G as <-.
+    specialize (IH _ eq_refl). lia.
+  - cbn [gain] in G. destruct (gain a) as [ga|]; [|discriminate].
+    destruct (0 <? ga)%Z; [discriminate|]. injection G as <-. cbn [net]. lia.
   - pose proof G as G'. cbn [gain] in G. destruct (gain a) as [ga|] eqn:Ga; [|discriminate].
     destruct (0 <? ga)%Z eqn:Hg; [discriminate|]. injection G as <-. apply Z.ltb_ge in Hg.
     specialize (IH1 _ eq_refl). specialize (IH2 _ G'). rewrite net_app. lia.
-  - cbn [gain] in G. destruct (gain a) as [ga|] eqn:Ga; [|discriminate].
-    destruct (0 <? ga)%Z eqn:Hg; [discriminate|]. injection G as <-. apply Z.ltb_ge in Hg.
-    specialize (IH _ eq_refl). lia.
 Qed.
+
+(* the counter after a completed handler is at most the limit plus the
+   handler's gain: the overflow trace is at most that long *)
+Lemma push_word_len : forall w s s', push_word w s = Ok s' ->
+  Z.of_N (len s') = (Z.of_N (len s) + net w)%Z.
+Proof.
+  induction w as [|i w IH]; intros s s' E; cbn [push_word net] in *.
+  - injection E as <-. lia.
+  - destruct (push_item i s) as [s1| | |] eqn:E1; cbn [obind] in E; try discriminate.
+    specialize (IH _ _ E). rewrite IH.
+    destruct i as [id| |]; cbn [push_item weight] in *.
+    + injection E1 as <-. cbn [push_trace_item inc_trace_len push_state len]. lia.
+    + unfold delay_trace_item, dec_trace_len, push_state in E1. cbn [len stack] in E1.
+      destruct (len s =? 0) eqn:E0; [discriminate|]. injection E1 as <-. cbn [len].
+      apply N.eqb_neq in E0. lia.
+    + injection E1 as <-. cbn [push_state len]. lia.
+Qed.
+
+Theorem step_overflow_trace_bounded : forall max a s tr g, wf s -> balanced (action_word a) = true ->
+  (net (action_word a) <= g)%Z -> (0 <= g)%Z -> len s <= max ->
+  step max a s = Err (StackOverflow tr) ->
+  (Z.of_nat (length tr) <= Z.of_N max + Z.max 1 g)%Z.
+Proof.
+  intros max a s tr g Hwf Hb Hg Hg0 Hmax E. unfold step in E. destruct s as [st l]. cbn [stack len] in *.
+  destruct st as [|top rest]; [discriminate|].
+  destruct (wf_pop _ _ _ Hwf) as (Hs & Hl & Hn).
+  assert (Hov : forall s1, wf s1 -> (Z.of_N (len s1) <= Z.of_N max + Z.max 1 g)%Z ->
+     (if max <? len s1 then obind (get_stack_trace s1) (fun tr => Err (StackOverflow tr)) else Ok s1)
+       = Err (StackOverflow tr) -> (Z.of_nat (length tr) <= Z.of_N max + Z.max 1 g)%Z).
+  { intros s1 H1 Hb1 E1. destruct (max <? len s1) eqn:Hm; [|discriminate].
+    destruct (get_stack_trace_ok s1 H1) as (tr1 & E2 & L). rewrite E2 in E1. cbn [obind] in E1.
+    injection E1 as <-. lia. }
+  destruct top as [id| |]; cbn [weight] in Hl.
+  - unfold dec_trace_len in E. cbn [len stack] in E. destruct (l =? 0) eqn:E0.
+    + cbn [obind] in E. discriminate.
+    + cbn [obind] in E. apply N.eqb_neq in E0. eapply Hov; [| |exact E].
+      * split; cbn [stack len]; [assumption | lia].
+      * cbn [len]. lia.
+  - cbn [obind] in E. eapply Hov; [| |exact E]; unfold inc_trace_len.
+    + split; cbn [stack len]; [assumption | lia].
+    + cbn [len]. lia.
+  - destruct a as [w fail]. cbn [action_word] in *.
+    assert (Hwf0 : wf {| stack := rest; len := l |}) by (split; cbn [stack len]; [assumption | lia]).
+    destruct (push_word_balanced_wf w _ Hwf0 Hb) as (s' & E' & Hwf' & _).
+    rewrite E' in E. cbn [obind] in E. destruct fail.
+    + destruct (get_stack_trace_ok s' Hwf') as (tr2 & E2 & _). rewrite E2 in E.
+      cbn [obind] in E. discriminate.
+    + cbn [obind] in E. eapply Hov; [exact Hwf' | | exact E].
+      rewrite (push_word_len _ _ _ E'). cbn [len]. lia.
+Qed.
+
+(* ---- a graph with a topological numbering has no cycle ---- *)
+From Coq Require Import Relations.
+
+Lemma graph_topo_edge : forall g a b, graph_topo g = true -> edge g a b -> b < a.
+Proof.
+  intros g a b H (succs & Hin & Hb). unfold graph_topo in H.
+  rewrite forallb_forall in H. specialize (H _ Hin). cbn [fst snd] in H.
+  rewrite forallb_forall in H. specialize (H _ Hb). apply N.ltb_lt in H. exact H.
+Qed.
+
+Lemma graph_topo_path : forall g a b, graph_topo g = true -> clos_trans N (edge g) a b -> b < a.
+Proof.
+  intros g a b H P. induction P as [x y E|x y z _ IH1 _ IH2].
+  - eapply graph_topo_edge; eauto.
+  - lia.
+Qed.
+
+Theorem graph_topo_acyclic : forall g, graph_topo g = true ->
+  forall a, ~ clos_trans N (edge g) a a.
+Proof. intros g H a P. pose proof (graph_topo_path g a a H P). lia. Qed.
